@@ -186,12 +186,13 @@ func (ex *Exec) merge2(a, b *State) *State {
 		if vb, ok := b.Cells[k]; ok {
 			out.Cells[k] = ex.mergeValues(c, va, vb)
 		} else {
-			out.Cells[k] = va
+			// a variable not (yet) declared on the other path has its zero value there
+			out.Cells[k] = ex.mergeWithZero(c, va, true)
 		}
 	}
 	for k, vb := range b.Cells {
 		if _, ok := a.Cells[k]; !ok {
-			out.Cells[k] = vb
+			out.Cells[k] = ex.mergeWithZero(c, vb, false)
 		}
 	}
 	for k, ha := range a.Heap {
@@ -241,6 +242,20 @@ func (ex *Exec) merge2(a, b *State) *State {
 	// keep arming order stable
 	sortDefers(out.Defers)
 	return out
+}
+
+// mergeWithZero merges a value that exists on one side only with the zero
+// value of its sort (vOnTrueSide: the value belongs to the side where c holds).
+func (ex *Exec) mergeWithZero(c *Term, v Value, vOnTrueSide bool) Value {
+	tv, ok := v.(TV)
+	if !ok {
+		return v
+	}
+	zero := ex.tm.zeroSort(tv.T.Sort)
+	if vOnTrueSide {
+		return TV{ex.ts.Ite(c, tv.T, zero)}
+	}
+	return TV{ex.ts.Ite(c, zero, tv.T)}
 }
 
 func sortDefers(ds []*DeferEntry) {
